@@ -9,7 +9,8 @@ own message callbacks).  It is a syntactic may-raise analysis over expressions, 
   when no test of that attribute guards the use (AttributeError on None),
 * a load of a package ``@property`` or a call of a package function / method whose own body contains one of
   these (followed to a small depth through the resolved callees),
-* a load of a slot that ``__init__`` never assigns (AttributeError: unset slot).
+* a load of a slot that ``__init__`` never assigns (AttributeError: unset slot),
+* a ``.index(x)`` search (ValueError when absent).
 
 Library calls are not judged here (C08.R8 keeps a list for the release path).  `if TYPE_CHECKING:` asserts have
 been dropped by the normaliser, so they do not count as guards.
@@ -160,6 +161,8 @@ def risky(ctx: Any, res: Any, fn: Func, stmts: Iterable[ast.AST], depth: int = 0
                         slots = _slots(ctx, cls_name)
                         if slots is not None and x.attr in slots:
                             out.append(f"L{x.lineno} self.{x.attr} (slot never assigned in __init__)")
+            if isinstance(x, ast.Call) and isinstance(x.func, ast.Attribute) and x.func.attr == "index" and x.args:
+                out.append(f"L{x.lineno} {norm(x)[:40]} (search may raise ValueError)")
             if isinstance(x, ast.Call) and depth <= 2:
                 cal = res.callees(fn, x)
                 if cal.kind == "pkg":
@@ -192,3 +195,107 @@ def _slots(ctx: Any, cls_name: str) -> set[str] | None:
         if isinstance(n, ast.Assign) and any(isinstance(t, ast.Name) and t.id == "__slots__" for t in n.targets) and isinstance(n.value, (ast.Tuple, ast.List)):
             return {e.value for e in n.value.elts if isinstance(e, ast.Constant) and isinstance(e.value, str)}
     return None
+
+
+def maybe_unbound(ctx: Any, fn: Func) -> list[str]:
+    """Loads of a local name of `fn` that some path reaches without having bound it (UnboundLocalError).
+
+    A forward must-analysis over the statement CFG: a name is bound after an assignment, a loop head that enters the
+    body, a `with ... as`, an `except ... as`, an import or a nested definition - on the normal edge only, not on
+    the exception edge of the binding statement.  Nested functions and comprehensions are scopes of their own.
+    """
+    from .cfg import cfg_of, must_forward, walk_own
+
+    g = cfg_of(ctx, fn)
+    a = fn.node.args
+    params = {p.arg for p in a.posonlyargs + a.args + a.kwonlyargs} | ({a.vararg.arg} if a.vararg else set()) | ({a.kwarg.arg} if a.kwarg else set())
+    declared: set[str] = set()
+    for n in own_nodes(fn.node):
+        if isinstance(n, (ast.Global, ast.Nonlocal)):
+            declared |= set(n.names)
+
+    def stores(e: ast.AST | None) -> set[str]:
+        out: set[str] = set()
+        if e is None:
+            return out
+        for x in walk_own(e):
+            if isinstance(x, ast.Name) and isinstance(x.ctx, ast.Store):
+                out.add(x.id)
+        return out
+
+    def comp_bound(e: ast.AST) -> set[str]:
+        out: set[str] = set()
+        for x in ast.walk(e):
+            if isinstance(x, ast.comprehension):
+                out |= {y.id for y in ast.walk(x.target) if isinstance(y, ast.Name)}
+        return out
+
+    def binds(n: Any, label: str) -> set[str]:
+        t = n.ast
+        if t is None or label == "exc":
+            return set()
+        if n.kind == "for":
+            return stores(t.target) if label == "true" else set()
+        if n.kind == "for-init":
+            return {y.id for y in ast.walk(t.iter) if isinstance(y, ast.NamedExpr) for y in [y.target]}
+        if n.kind == "with-enter":
+            return set().union(*[stores(i.optional_vars) for i in t.items]) if t.items else set()
+        if n.kind == "handler":
+            return {t.name} if isinstance(t, ast.ExceptHandler) and t.name else set()
+        if n.kind == "cond":
+            return {y.target.id for y in ast.walk(t) if isinstance(y, ast.NamedExpr)}
+        if n.kind != "stmt":
+            return set()
+        if isinstance(t, (ast.FunctionDef, ast.AsyncFunctionDef, ast.ClassDef)):
+            return {t.name}
+        if isinstance(t, (ast.Import, ast.ImportFrom)):
+            return {(al.asname or al.name).split(".")[0] for al in t.names}
+        return (stores(t) | {y.target.id for y in ast.walk(t) if isinstance(y, ast.NamedExpr)}) - comp_bound(t)
+
+    def evaluated(n: Any) -> list[ast.AST]:
+        t = n.ast
+        if t is None:
+            return []
+        if n.kind == "for-init":
+            return [t.iter]
+        if n.kind == "for":
+            return []
+        if n.kind in ("with-enter",):
+            return [i.context_expr for i in t.items]
+        if n.kind == "with-exit":
+            return []
+        if n.kind == "handler":
+            return [t.type] if isinstance(t, ast.ExceptHandler) and t.type is not None else []
+        if n.kind in ("cond", "stmt"):
+            if isinstance(t, (ast.FunctionDef, ast.AsyncFunctionDef, ast.ClassDef)):
+                return list(t.decorator_list)
+            return [t]
+        return []
+
+    local_names: set[str] = set()
+    for n in g.reachable():
+        for lb in ("next", "true"):
+            local_names |= binds(n, lb)
+    local_names -= declared
+
+    def gk(n: Any, f: frozenset, label: str) -> frozenset:
+        out = f | frozenset(binds(n, label))
+        if n.kind == "stmt" and isinstance(n.ast, ast.Delete) and label != "exc":
+            out = out - frozenset(y.id for y in n.ast.targets if isinstance(y, ast.Name))
+        return out
+
+    IN = must_forward(g, gk, frozenset(params))
+    out: list[str] = []
+    for n in g.reachable():
+        have = IN.get(n)
+        if have is None or not isinstance(have, frozenset):
+            continue
+        own = binds(n, "next") | binds(n, "true")
+        for e in evaluated(n):
+            cb = comp_bound(e)
+            for x in walk_own(e):
+                if isinstance(x, ast.Name) and isinstance(x.ctx, ast.Load) and x.id in local_names and x.id not in have and x.id not in cb and not (x.id in own and not isinstance(n.ast, ast.AugAssign)):
+                    d = f"L{getattr(x, 'lineno', 0)} `{x.id}` may be unbound here"
+                    if d not in out:
+                        out.append(d)
+    return out
